@@ -118,6 +118,8 @@ BUDGET_S = {"quick": 600, "thorough": 2300}
 
 def POST_INSTALL():
     import autoarray.dataset.grids  # noqa  (hashed in FUNCTIONS)
+    from symx import merge
+    merge.install_dispatchers()
 
 
 def _known_ids():
@@ -524,6 +526,7 @@ def body_iterate(inp, H, W, steps, rel_set, route):
 
 
 MARGIN = 1e-4
+MERGE_ITERATE = [os.environ.get("C09_MERGE", "1") == "1"]
 
 
 def _absge(t, d):
@@ -593,7 +596,15 @@ def case_iterate(ctx, mask_name, steps, geom, rel_set, route="sampler"):
     inputs = {"mask": mask, "origin": origin, "scales": scales, "thr": [thr], "rel": [rel], "ftab": []}
     kw = {"H": H, "W": W, "steps": list(steps), "rel_set": rel_set, "route": route}
     ctx.set_inputs(**inputs)
-    actual, expected = body_iterate(inputs, **kw)
+    if MERGE_ITERATE[0]:
+        # the jit kernels (threshold test, sub-grid, binning) run through the if-converting interpreter: one path per
+        # resolved/unresolved pattern of the pixels instead of one per outcome of every comparison
+        from symx import merge
+        with merge.merging() as events:
+            actual, expected = body_iterate(inputs, **kw)
+            ctx.check("no exception event in the merged kernels", [z3.Not(g) for (g, n, msg) in events])
+    else:
+        actual, expected = body_iterate(inputs, **kw)
     pos = ref_pixels(mask)
     F = UserF(inputs["ftab"])
     region = None
